@@ -271,3 +271,190 @@ Section BinReader.
     specialize (Hl k hs Hhs). rewrite firstn_length_le in Hl by exact Hkl. lia.
   Qed.
 End BinReader.
+
+(* ================================================================ whole files *)
+Section WholeFile.
+  Variable cv_ok : list byte -> bool.
+  Variable matches : bbias -> list byte -> option bool.
+  Variable params_ok : bbias -> list byte -> bool.
+  Notation cv_read := (cv_read cv_ok).
+  Notation bias_read := (bias_read matches params_ok).
+  Notation read_colvars := (read_colvars cv_ok).
+  Notation read_biases := (read_biases matches params_ok).
+
+  Definition cv_enc (data : list byte) : list byte := enc_all [IStr kw_colvar; IStr data].
+  Definition cv_data_ok (data : list byte) : Prop := item_ok (IStr data) /\ cv_ok data = true.
+
+  Lemma cv_fields_match data : item_ok (IStr data) -> fields_match [FKey kw_colvar; FAny] [IStr kw_colvar; IStr data].
+  Proof.
+    intros Hd. repeat constructor; cbn [field_ok shape_of shape_of_field item_ok]; auto; try apply bytes_eqb_refl.
+    all: try (vm_compute; reflexivity).
+  Qed.
+
+  Lemma cv_mid data b1 b2 mx o : cv_data_ok data -> blen (b1 ++ cv_enc data ++ b2) < W64 ->
+    cv_read (rst (b1 ++ cv_enc data ++ b2) mx false false false (blen b1) o)
+    = Some (rst (b1 ++ cv_enc data ++ b2) mx false false false (blen (b1 ++ cv_enc data)) o).
+  Proof.
+    intros [Hd Hok] H. unfold BinReadModel.cv_read, cv_enc in *.
+    rewrite (read_fields_mid _ _ b1 b2 mx o (cv_fields_match data Hd) H). now rewrite Hok.
+  Qed.
+
+  (* all the variables' records present: read; the data end before the last one is complete: error *)
+  Lemma colvars_mid : forall datas b1 b2 mx o, Forall cv_data_ok datas ->
+    blen (b1 ++ concat (map cv_enc datas) ++ b2) < W64 ->
+    read_colvars (length datas) (rst (b1 ++ concat (map cv_enc datas) ++ b2) mx false false false (blen b1) o)
+    = Some (rst (b1 ++ concat (map cv_enc datas) ++ b2) mx false false false (blen (b1 ++ concat (map cv_enc datas))) o).
+  Proof.
+    induction datas as [|d datas IH]; intros b1 b2 mx o Hok H.
+    - cbn [map concat app length BinReadModel.read_colvars]. now rewrite app_nil_r.
+    - inversion Hok as [|? ? Hd Hds]; subst. cbn [map concat length BinReadModel.read_colvars] in *.
+      rewrite <- app_assoc in *. rewrite (cv_mid d b1 _ mx o Hd H).
+      rewrite (app_assoc b1 (cv_enc d)) in *. rewrite (IH _ b2 mx o Hds H). now rewrite <- !app_assoc.
+  Qed.
+
+  Lemma colvars_cut : forall datas b1 p q mx o, Forall cv_data_ok datas ->
+    concat (map cv_enc datas) = p ++ q -> q <> [] -> blen (b1 ++ p) < W64 ->
+    read_colvars (length datas) (rst (b1 ++ p) mx false false false (blen b1) o) = None.
+  Proof.
+    induction datas as [|d datas IH]; intros b1 p q mx o Hok He Hq H.
+    - cbn in He. symmetry in He. apply app_eq_nil in He. destruct He; congruence.
+    - inversion Hok as [|? ? Hd Hds]; subst. cbn [map concat length BinReadModel.read_colvars] in *.
+      destruct (Nat.le_gt_cases (length (cv_enc d)) (length p)) as [Hle|Hgt].
+      + destruct (prefix_split _ _ _ _ He Hle) as (p2 & Hp & He2). subst p.
+        rewrite (cv_mid d b1 p2 mx o Hd H). rewrite (app_assoc b1 (cv_enc d) p2) in *.
+        exact (IH _ p2 q mx o Hds He2 Hq H).
+      + symmetry in He. destruct (prefix_split _ _ _ _ He) as (m & Hp & Hm); [lia|].
+        assert (Hmn : m <> []) by (intros ->; rewrite app_nil_r in Hp; rewrite Hp in Hgt; lia).
+        destruct Hd as [Hd _]. now rewrite (cv_cut cv_ok d b1 p m mx o Hd Hp Hmn H).
+  Qed.
+
+  (* a bias object without data after its configuration *)
+  Record bobj := mkO { o_b : bbias; o_kwd : list byte; o_conf : list byte; o_hs : list (list item) }.
+  Definition benc (x : bobj) : list byte := enc_header (o_kwd x) (o_conf x) ++ enc_hills (o_hs x).
+  Definition obj_ok (x : bobj) : Prop :=
+    item_ok (IStr (o_kwd x)) /\ item_ok (IStr (o_conf x)) /\
+    bytes_eqb (o_kwd x) (bb_kw (o_b x)) || bytes_eqb (o_kwd x) (bb_type (o_b x)) = true /\
+    matches (o_b x) (o_conf x) = Some true /\ params_ok (o_b x) (o_conf x) = true /\
+    Forall (hill_ok (bb_nvar (o_b x))) (o_hs x).
+  Definition plain (x : bobj) : Prop := bb_kind (o_b x) = 0%nat /\ o_hs x = [].
+
+  Lemma read_biases_sticky bs : forall s, read_biases bs s true = true.
+  Proof.
+    induction bs as [|b bs IH]; intros s; cbn [BinReadModel.read_biases]; [reflexivity|].
+    destruct (bias_read b s) as [| |s' e]; [reflexivity | apply IH | apply IH].
+  Qed.
+
+  Lemma plain_benc x : plain x -> benc x = enc_header (o_kwd x) (o_conf x).
+  Proof. intros [_ Hh]. unfold benc. rewrite Hh. cbn [enc_hills map concat]. now rewrite app_nil_r. Qed.
+
+  Lemma plain_mid x b1 b2 mx o : obj_ok x -> plain x -> blen (b1 ++ benc x ++ b2) < W64 ->
+    bias_read (o_b x) (rst (b1 ++ benc x ++ b2) mx false false false (blen b1) o)
+    = BOk (rst (b1 ++ benc x ++ b2) mx false false false (blen (b1 ++ benc x)) o) false.
+  Proof.
+    intros (Hk & Hc & Hkw & Hm & Hp & _) Hpl H. rewrite (plain_benc x Hpl) in *.
+    rewrite (bias_header_mid matches params_ok (o_b x) _ _ b1 b2 mx o Hk Hc Hkw Hm Hp H).
+    unfold read_data. destruct Hpl as [Hkind _]. now rewrite Hkind.
+  Qed.
+
+  Lemma plain_objs_mid : forall xs rest b1 b2 mx o err, Forall obj_ok xs -> Forall plain xs ->
+    blen (b1 ++ concat (map benc xs) ++ b2) < W64 ->
+    read_biases (map o_b xs ++ rest) (rst (b1 ++ concat (map benc xs) ++ b2) mx false false false (blen b1) o) err
+    = read_biases rest (rst (b1 ++ concat (map benc xs) ++ b2) mx false false false (blen (b1 ++ concat (map benc xs))) o) err.
+  Proof.
+    induction xs as [|x xs IH]; intros rest b1 b2 mx o err Hok Hpl H.
+    - cbn [map concat app]. now rewrite app_nil_r.
+    - inversion Hok as [|? ? Hx Hxs]; subst. inversion Hpl as [|? ? Hpx Hpxs]; subst.
+      cbn [map concat app BinReadModel.read_biases] in *. rewrite <- app_assoc in *.
+      rewrite (plain_mid x b1 _ mx o Hx Hpx H). rewrite orb_false_r.
+      rewrite (app_assoc b1 (benc x)) in *. rewrite (IH rest _ b2 mx o err Hxs Hpxs H). now rewrite <- !app_assoc.
+  Qed.
+
+  Lemma bias_read_at_end b b1 mx o : blen b1 < W64 ->
+    bias_read b (rst b1 mx false false false (blen b1) o) = BErr.
+  Proof.
+    intros H. unfold BinReadModel.bias_read.
+    pose proof (read_string_at_end b1 mx o H) as He.
+    destruct (read_string (rst b1 mx false false false (blen b1) o)) as [r s'] eqn:E. cbn [fst] in He. now subst r.
+  Qed.
+
+  (* data that end inside (or right before) one of the objects without data: error *)
+  Lemma plain_objs_cut : forall xs rest b1 p q mx o err, Forall obj_ok xs -> Forall plain xs ->
+    concat (map benc xs) = p ++ q -> q <> [] -> blen (b1 ++ p) < W64 ->
+    read_biases (map o_b xs ++ rest) (rst (b1 ++ p) mx false false false (blen b1) o) err = true.
+  Proof.
+    induction xs as [|x xs IH]; intros rest b1 p q mx o err Hok Hpl He Hq H.
+    - cbn in He. symmetry in He. apply app_eq_nil in He. destruct He; congruence.
+    - inversion Hok as [|? ? Hx Hxs]; subst. inversion Hpl as [|? ? Hpx Hpxs]; subst.
+      cbn [map concat app BinReadModel.read_biases] in *.
+      destruct (Nat.le_gt_cases (length (benc x)) (length p)) as [Hle|Hgt].
+      + destruct (prefix_split _ _ _ _ He Hle) as (p2 & Hp & He2). subst p.
+        rewrite (plain_mid x b1 p2 mx o Hx Hpx H). rewrite (app_assoc b1 (benc x) p2) in *.
+        exact (IH rest _ p2 q mx o _ Hxs Hpxs He2 Hq H).
+      + symmetry in He. destruct (prefix_split _ _ _ _ He) as (m & Hp & Hm); [lia|].
+        assert (Hmn : m <> []) by (intros ->; rewrite app_nil_r in Hp; rewrite Hp in Hgt; lia).
+        destruct Hx as (Hk & Hc & Hkw & _). rewrite (plain_benc x Hpx) in Hp.
+        now rewrite (bias_header_cut matches params_ok (o_b x) _ _ b1 p m mx o Hk Hc Hkw Hp Hmn H).
+  Qed.
+
+  (* the global block *)
+  Definition genc (gconf : list byte) : list byte := enc_all [IStr kw_configuration; IStr gconf].
+
+  Lemma skip_global_mid gconf b1 b2 mx o : item_ok (IStr gconf) -> blen (b1 ++ genc gconf ++ b2) < W64 ->
+    skip_global (rst (b1 ++ genc gconf ++ b2) mx false false false (blen b1) o)
+    = rst (b1 ++ genc gconf ++ b2) mx false false false (blen (b1 ++ genc gconf)) o.
+  Proof.
+    intros Hg H. unfold skip_global, genc in *. rewrite rst_pos.
+    rewrite !enc_all_cons in *. cbn [enc_all map concat] in *. rewrite app_nil_r in *. rewrite <- app_assoc in *.
+    rewrite (read_string_mid b1 kw_configuration _ mx false false false o H). rewrite bytes_eqb_refl.
+    rewrite (app_assoc b1 (enc (IStr kw_configuration))) in *.
+    rewrite (read_string_mid (b1 ++ enc (IStr kw_configuration)) gconf b2 mx false false false o H).
+    rewrite rst_pos. unfold rewind, rst. cbn [ms_buf ms_len ms_max ms_oob]. now rewrite <- !app_assoc.
+  Qed.
+
+  (* a binary state: magic number, global block, the variables, the biases without data, and possibly a last
+     bias with a list of hills; the data end anywhere after the global block and before the end of the state:
+     the load reports an error, unless the data end exactly between two hills of that last bias (or right
+     before its first hill, or after its last one when ... nothing is missing) *)
+  Lemma binary_state_cut gconf datas xs last p q :
+    item_ok (IStr gconf) -> Forall cv_data_ok datas -> Forall obj_ok xs -> Forall plain xs ->
+    match last with Some x => obj_ok x /\ bb_kind (o_b x) = 1%nat | None => True end ->
+    concat (map cv_enc datas) ++ concat (map benc xs) ++ match last with Some x => benc x | None => [] end = p ++ q ->
+    q <> [] -> blen (magic ++ genc gconf ++ p) < W64 ->
+    (forall x k, last = Some x ->
+       p <> concat (map cv_enc datas) ++ concat (map benc xs) ++ enc_header (o_kwd x) (o_conf x) ++ enc_hills (firstn k (o_hs x))) ->
+    load_bin cv_ok matches params_ok (length datas)
+             (map o_b xs ++ match last with Some x => [o_b x] | None => [] end) (magic ++ genc gconf ++ p) = true.
+  Proof.
+    intros Hg Hcv Hxs Hpl Hlast He Hq H Hnb. unfold load_bin.
+    change (input_stream (magic ++ genc gconf ++ p))
+      with (rst ([] ++ magic ++ (genc gconf ++ p)) (blen (magic ++ genc gconf ++ p)) false false false (blen (@nil byte)) false).
+    change 4 with (blen magic).
+    rewrite (read_object_mid [] magic (genc gconf ++ p) _ false false false false H).
+    rewrite bytes_eqb_refl. cbn [app].
+    rewrite (skip_global_mid gconf magic p _ false Hg H).
+    rewrite (app_assoc magic (genc gconf) p) in *.
+    set (b1 := magic ++ genc gconf) in *. set (mx := blen (b1 ++ p)).
+    destruct (Nat.le_gt_cases (length (concat (map cv_enc datas))) (length p)) as [Hle|Hgt].
+    2:{ symmetry in He. destruct (prefix_split _ _ _ _ He) as (m & Hp & Hm); [lia|].
+        assert (Hmn : m <> []) by (intros ->; rewrite app_nil_r in Hp; rewrite Hp in Hgt; lia).
+        now rewrite (colvars_cut datas b1 p m mx false Hcv Hp Hmn H). }
+    destruct (prefix_split _ _ _ _ He Hle) as (p2 & Hp & He2). subst p.
+    rewrite (colvars_mid datas b1 p2 mx false Hcv H).
+    rewrite (app_assoc b1 (concat (map cv_enc datas)) p2) in *.
+    destruct (Nat.le_gt_cases (length (concat (map benc xs))) (length p2)) as [Hle2|Hgt2].
+    2:{ symmetry in He2. destruct (prefix_split _ _ _ _ He2) as (m & Hp2 & Hm); [lia|].
+        assert (Hmn : m <> []) by (intros ->; rewrite app_nil_r in Hp2; rewrite Hp2 in Hgt2; lia).
+        exact (plain_objs_cut xs _ (b1 ++ (concat (map cv_enc datas))) p2 m mx false false Hxs Hpl Hp2 Hmn H). }
+    destruct (prefix_split _ _ _ _ He2 Hle2) as (p3 & Hp2 & He3). subst p2.
+    rewrite (plain_objs_mid xs _ (b1 ++ (concat (map cv_enc datas))) p3 mx false false Hxs Hpl H).
+    rewrite (app_assoc (b1 ++ (concat (map cv_enc datas))) (concat (map benc xs)) p3) in *.
+    destruct last as [x|].
+    - destruct Hlast as [(Hk & Hc & Hkw & Hm & Hpo & Hhs) Hkind]. unfold benc in He3.
+      cbn [BinReadModel.read_biases].
+      assert (Hnb3 : forall k, p3 <> enc_header (o_kwd x) (o_conf x) ++ enc_hills (firstn k (o_hs x))).
+      { intros k Hk3. apply (Hnb x k eq_refl). now rewrite Hk3. }
+      destruct (bias_cut matches params_ok (o_b x) _ _ _ ((b1 ++ (concat (map cv_enc datas))) ++ (concat (map benc xs))) p3 q mx false Hkind Hk Hc Hkw Hm Hpo Hhs He3 Hq H Hnb3)
+        as [Hr | (s & Hr)]; rewrite Hr; [reflexivity | reflexivity].
+    - symmetry in He3. apply app_eq_nil in He3. destruct He3; congruence.
+  Qed.
+End WholeFile.
